@@ -209,3 +209,89 @@ def tree_key(text, subst=()):
         return ast.dump(ast.parse(text, mode='eval').body)
     except SyntaxError:
         return 'unparsable:' + text
+
+
+def block_env(stmts, env=None):
+    """Straight-line symbolic evaluation of a statement list: name -> expression tree with every earlier assignment of the
+    same block substituted (sequential re-assignments `x = f(x)` compose).  Compound statements are opaque: every name they
+    bind is forgotten.  Attribute / subscript stores are recorded under their target text with the substituted value.
+    -> (env, stores) where stores is a list of (target node, substituted value, stmt)."""
+    env = dict(env or {})
+    stores = []
+
+    def subst(e):
+        class T(ast.NodeTransformer):
+            def visit_Name(s, n):
+                if isinstance(n.ctx, ast.Load) and n.id in env and env[n.id] is not None:
+                    return copy.deepcopy(env[n.id])
+                return n
+        return T().visit(copy.deepcopy(e))
+
+    def forget(node):
+        for n in ast.walk(node):
+            if isinstance(n, ast.Name) and isinstance(n.ctx, (ast.Store, ast.Del)):
+                env[n.id] = None
+
+    for st in stmts:
+        if isinstance(st, ast.Assign):
+            v = subst(st.value)
+            for t in st.targets:
+                if isinstance(t, ast.Name):
+                    env[t.id] = v
+                elif isinstance(t, (ast.Tuple, ast.List)) and all(isinstance(x, ast.Name) for x in t.elts):
+                    for i, x in enumerate(t.elts):
+                        if isinstance(v, (ast.Tuple, ast.List)) and len(v.elts) == len(t.elts):
+                            env[x.id] = v.elts[i]
+                        else:
+                            env[x.id] = ast.Subscript(value=copy.deepcopy(v), slice=ast.Constant(value=i), ctx=ast.Load())
+                else:
+                    stores.append((t, v, st))
+                    b = t
+                    while isinstance(b, (ast.Subscript, ast.Attribute)):
+                        b = b.value
+                    if isinstance(b, ast.Name) and b.id in env and isinstance(t, ast.Subscript):
+                        env[b.id] = None          # element store: the name's value is no longer its defining expression
+        elif isinstance(st, ast.AugAssign):
+            if isinstance(st.target, ast.Name):
+                cur = env.get(st.target.id)
+                if cur is not None:
+                    env[st.target.id] = ast.BinOp(left=cur, op=st.op, right=subst(st.value))
+                else:
+                    env[st.target.id] = None
+            else:
+                stores.append((st.target, None, st))
+        elif isinstance(st, (ast.Expr, ast.Pass, ast.Assert, ast.Return)):
+            continue
+        else:
+            forget(st)
+    return env, stores
+
+
+def canon_names(e, mapping):
+    """Copy of `e` with the given names replaced (role names chosen by the rule)."""
+    e = copy.deepcopy(e)
+    for n in ast.walk(e):
+        if isinstance(n, ast.Name) and n.id in mapping:
+            n.id = mapping[n.id]
+    return e
+
+
+def same_tree(e, wanted, subst=()):
+    got = ast.unparse(e) if isinstance(e, ast.AST) else e
+    return any(tree_key(got, subst) == tree_key(w, subst) for w in ([wanted] if isinstance(wanted, str) else wanted))
+
+
+def resolved_in_block(body, expr):
+    """`expr` (a node inside one of the top-level statements of `body`) with the straight-line assignments that precede
+    that statement in `body` substituted."""
+    for k, st in enumerate(body):
+        if any(n is expr for n in ast.walk(st)):
+            env, _ = block_env(body[:k])
+
+            class T(ast.NodeTransformer):
+                def visit_Name(s, n):
+                    if isinstance(n.ctx, ast.Load) and env.get(n.id) is not None:
+                        return copy.deepcopy(env[n.id])
+                    return n
+            return T().visit(copy.deepcopy(expr))
+    return copy.deepcopy(expr)
